@@ -48,7 +48,22 @@ def run_proof_check(prop, contract_modules, source_modules, *, level='proof', cl
     for cm in pr['cms']:
         bs_funcs.update(getattr(cm, 'BOUNDED_SYMBOLIC', {}))
     table = propcheck.obligations_table(obs)
+    # syntactic obligations (AST scans of the real source) take part like any other obligation
+    static = pr.get('static', {})
+    for oid, so in sorted(static.items()):
+        if so['status'] == 'refuted':
+            cm = importlib.import_module(so['contract_module'])
+            hook = getattr(cm, 'static_replay', None)
+            confirmed, replay = (False, {'kind': 'static-obligation', 'detail': so['detail']})
+            if hook is not None:
+                try:
+                    confirmed, replay = hook(oid, so['detail'])
+                except Exception as e:      # noqa
+                    replay = {'kind': 'static-obligation', 'detail': so['detail'], 'replay_error': repr(e)}
+            text = f"syntactic obligation fails on the current source: {so['detail']}"
+            violations.append(Violation(prop, oid, oid, text, replay, bool(confirmed)))
     proved = [o for o in table if obs[o['id']]['function'] not in bs_funcs]
+    proved += [{k: v for k, v in so.items() if k not in ('contract_module',)} for _, so in sorted(static.items())]
     bsym = [dict(o, bound=f"container sizes 0..{bs_funcs[obs[o['id']]['function']]}, contents symbolic")
             for o in table if obs[o['id']]['function'] in bs_funcs]
     coverage = {
@@ -99,3 +114,38 @@ def run_proof_check(prop, contract_modules, source_modules, *, level='proof', cl
             f"(unbounded); {len(bsym)} bounded-symbolic obligations and the bounded complement driver are labelled "
             f"bounded and not counted as proved")
     return finish(prop, level, violations, undecided, errors, coverage, assumptions, t0)
+
+
+def proof_subobligations(prop, contract_modules, source_modules, classify=None):
+    """proof tier for properties whose top-level statement is decided by a bounded driver: returns
+    (violations, undecided, errors, coverage-part, assumptions).  The coverage part lists the discharged
+    sub-obligations separately; they are never mixed into the bounded counts."""
+    pr = propcheck.run_proof_tier(prop, contract_modules, source_modules, classify or default_classify())
+    obs = pr['obligations']
+    bs_funcs = {}
+    for cm in pr['cms']:
+        bs_funcs.update(getattr(cm, 'BOUNDED_SYMBOLIC', {}))
+    table = propcheck.obligations_table(obs)
+    violations = list(pr['violations'])
+    static = pr.get('static', {})
+    for oid, so in sorted(static.items()):
+        if so['status'] == 'refuted':
+            violations.append(Violation(prop, oid, oid, f"syntactic obligation fails: {so['detail']}",
+                                        {'kind': 'static-obligation', 'detail': so['detail']}, False))
+    proved = [o for o in table if obs[o['id']]['function'] not in bs_funcs]
+    proved += [{k: v for k, v in so.items() if k != 'contract_module'} for _, so in sorted(static.items())]
+    bsym = [dict(o, bound=f"container sizes 0..{bs_funcs[obs[o['id']]['function']]}, contents symbolic")
+            for o in table if obs[o['id']]['function'] in bs_funcs]
+    part = {
+        'proved_subobligations': {
+            'obligations': len(proved), 'discharged': len([o for o in proved if o['status'] == 'discharged']),
+            'per_obligation': proved, 'bounded_symbolic': bsym,
+            'functions_under_contract': pr['functions'],
+            'external_contracts_used': pr.get('external_contracts_used', []),
+            'instances_discharged': sum(o['unsat'] for o in obs.values()),
+            'solver_time_s': round(sum(o['time_s'] for o in obs.values()), 2),
+            'timing': pr['timing'], 'canaries': pr['canaries'], 'engine_crosscheck': pr['crosscheck'],
+            'diagnostics': pr['diagnostics'],
+            'checker': "pyvc: VCs generated from the AST of the real source under /repo on every run; z3 5.1.0, cvc5 for unknowns",
+        }}
+    return violations, list(pr['undecided']), list(pr['errors']), part, list(pr['assumed'])
